@@ -243,7 +243,8 @@ PROPS = {
             "leave_cluster queues Down(self), gossips it to active members, ends Defunct": "theorem (full): leave_declares_itself_down, leave_queues_down_update",
             "a departed member stops answering and (since the fix for F8) no longer refutes suspicion": "theorem (full): departed_member_stops_answering, departed_member_does_not_refute",
             "receivers of the Down gossip report MemberDown at once; a silent member is handed over for suspicion": "theorem (full): down_update_is_reported_at_once, silent_member_is_suspected (with C11/C12/C14 theorems)",
-            "every survivor reports every failed member within (2n+1) periods + suspect_to_down_after; no survivor declared Down": "partial: real-time composition explored by the simulator only (every subset failing, crash or leave, at random event indices)",
+            "a silent member is suspected by the next probe timer, and an unrefuted suspicion ends in Down with MemberDown notified (the part of detection that is logic, whole calls)": "theorem (full, any state with one record per address — C09H: every reachable state —, any RNG draws, whatever the call returns): C03H.unanswered_round_raises_suspicion (a connected instance's current probe timer after a complete cycle whose target did not answer, the target's record still active and not known at a higher incarnation: afterwards the record is Suspect at the round's incarnation and the suspicion timeout for that identity, incarnation and epoch is scheduled after suspect_to_down_after), C03H.unrefuted_timeout_declares_down (that timeout, in the same epoch, finding the record at that incarnation and not Down: afterwards the record is Down, MemberDown notified, the forget-timer scheduled — also when the courtesy TurnUndead cannot be encoded); the output of the first is the premise of the second (worked example); Proofs/Detect.lean (applyExisting_lands, suspect_update, the effect-aware frames Kept / Listed); which round reaches the member: C14H.every_window (2n-1)",
+            "every survivor reports every failed member within (2n+1) periods + suspect_to_down_after; no survivor declared Down": "partial: the real-time composition (rounds and timers on the clock, gossip reaching the others) is explored by the simulator only (every subset failing, crash or leave, at random event indices)",
         },
         "search: simulator, directly formed clusters of 2..6 (thorough ..12) real instances, every non-empty proper subset failing (crash or graceful leave) at a random event index, latencies and seeds varied; per survivor the time of MemberDown for each failed member is compared with the bound; no MemberDown/Defunct/Rejoin for survivors. " + RULE_HIST,
         ["timers on time, latencies below probe_rtt/4 (simulator)"],
